@@ -524,6 +524,11 @@ func genShape(r *Rng, depth int) TShape {
 				usedEmb[nm] = true
 				f.Name, f.Emb = nm, true
 				t.Args = append(t.Args, TShape{K: "named", Path: Pick(r, c11Paths), Name: nm})
+			} else if pre := Pick(r, []string{"any", "error"}); r.Chance(8) && !usedEmb[pre] {
+				// an embedded predeclared type: the field is named after it (`any` is an alias without a package)
+				usedEmb[pre] = true
+				f.Name, f.Emb = pre, true
+				t.Args = append(t.Args, TShape{K: pre})
 			} else {
 				t.Args = append(t.Args, genShape(r, depth-1))
 			}
